@@ -9,8 +9,8 @@ Open Scope Z_scope.
 Definition nclosed (m : mux) : Z := m_frag m + m_nfrags m.
 (* ring slot that holds fragment i *)
 Definition sl (c : cfg) (m : mux) (i : Z) : finfo := get_slot m (Z.to_nat (i mod cap c)).
-(* hls.Clock value at which fragment i was opened (ghost history) *)
-Definition hnow (m : mux) (i : Z) : Z := nth (Z.to_nat i) (m_hist m) 0.
+(* hls.Clock value at which fragment i was opened (ghost history of THIS muxer: fragments m_base, m_base+1, ...) *)
+Definition hnow (m : mux) (i : Z) : Z := nth (Z.to_nat (i - m_base m)) (m_hist m) 0.
 Definition b2z (b : bool) : Z := if b then 1 else 0.
 
 Definition good_data (d : bytes) : Prop :=
@@ -19,40 +19,77 @@ Definition good_data (d : bytes) : Prop :=
 Definition slot_is (c : cfg) (m : mux) (k i : Z) : Prop :=
   fi_id (sl c m k) = i /\ fi_named (sl c m k) = true /\ fi_now (sl c m k) = hnow m i.
 
+(* ---- the live playlist a previous publication left in the directory (re-publish without cleanup) ---- *)
+Definition pl_sane (p : playlist) : Prop :=
+  0 <= pl_target p /\ 0 <= pl_seq p /\ Forall (fun s => 0 <= f_num (s_dur s)) (pl_segs p).
+
+(* a segment it lists: numbered below everything this muxer will create, on disk and well-formed *)
+Definition prev_seg_ok (m : mux) (s : fs) (T : Z) (sg : seg) : Prop :=
+  listed_seconds sg <= T /\ s_id sg < m_base m /\ seg_file_ok s sg.
+
+(* until this muxer publishes its first playlist: either there is no live playlist (then Start began at 0), or it is
+   the complete, consistent playlist of a previous publication whose numbering Start carried on with *)
+Definition prev_ok (c : cfg) (m : mux) (s : fs) : Prop :=
+  match fs_lookup PLive s with
+  | None => m_base m = 0 /\ m_pfrag m = 0
+  | Some f => exists pl, f = mkfile (print_live (c_stream c) pl) true /\ pl_sane pl /\ pl_seq pl = m_pfrag m /\
+                         pl_seq pl + Z.of_nat (length (pl_segs pl)) = m_base m /\
+                         Forall (prev_seg_ok m s (pl_target pl)) (pl_segs pl)
+  end.
+
 Record Inv (c : cfg) (m : mux) (s : fs) : Prop := mkInv {
   inv_cfg : 1 <= c_num c /\ 0 <= c_thr c /\ 0 <= c_ms c <= 2 ^ 35 /\ stream_ok (c_stream c);
-  inv_cnt : 0 <= m_frag m /\ 0 <= m_nfrags m <= c_num c /\ (m_nfrags m < c_num c -> m_frag m = 0);
+  inv_cnt : 0 <= m_pfrag m <= m_base m /\ m_base m <= m_frag m /\ 0 <= m_nfrags m <= c_num c /\
+            (m_nfrags m < c_num c -> m_frag m = m_base m);
   inv_len : length (m_frags m) = Z.to_nat (cap c);
-  inv_hist : Z.of_nat (length (m_hist m)) = nclosed m + b2z (m_opened m);
-  (* slot i mod cap holds fragment i for the last cap-1 closed fragments ... *)
-  inv_ring : forall i, 0 <= i -> nclosed m - cap c < i < nclosed m -> slot_is c m i i;
+  inv_hist : Z.of_nat (length (m_hist m)) = nclosed m - m_base m + b2z (m_opened m);
+  (* slot i mod cap holds fragment i for the last cap-1 closed fragments of this muxer ... *)
+  inv_ring : forall i, m_base m <= i -> nclosed m - cap c < i < nclosed m -> slot_is c m i i;
   (* ... and for the open one *)
   inv_open : m_opened m = true -> slot_is c m (nclosed m) (nclosed m) /\ m_cur m = PTs (hnow m (nclosed m)) (nclosed m);
   (* between close and open the next slot still holds the fragment that left the window: getDeleteFrag *)
-  inv_old : m_opened m = false -> cap c <= nclosed m -> slot_is c m (nclosed m) (nclosed m - cap c);
-  (* slots never used have no file name *)
-  inv_fresh : forall j : nat, nclosed m + b2z (m_opened m) <= Z.of_nat j < cap c -> fi_named (get_slot m j) = false;
+  inv_old : m_opened m = false -> m_base m + cap c <= nclosed m -> slot_is c m (nclosed m) (nclosed m - cap c);
+  (* slots not used yet (first lap of the ring) have no file name *)
+  inv_fresh : forall i, nclosed m + b2z (m_opened m) <= i < m_base m + cap c -> fi_named (sl c m i) = false;
   (* the last cap-1 closed fragments are on disk, closed, whole packets, PAT/PMT first *)
-  inv_files : forall i, 0 <= i -> nclosed m - cap c < i < nclosed m ->
+  inv_files : forall i, m_base m <= i -> nclosed m - cap c < i < nclosed m ->
               exists f, fs_lookup (PTs (hnow m i) i) s = Some f /\ fclosed f = true /\ good_data (fdata f);
   inv_cur : m_opened m = true -> exists f, fs_lookup (m_cur m) s = Some f /\ good_data (fdata f);
-  (* the live playlist is the one written at the last close *)
-  inv_live0 : nclosed m = 0 -> fs_lookup PLive s = None;
-  inv_live : 0 < nclosed m ->
+  (* before the first close: whatever Start found *)
+  inv_live0 : nclosed m = m_base m -> prev_ok c m s;
+  (* afterwards the live playlist is the one written at the last close *)
+  inv_live : m_base m < nclosed m ->
              exists e, fs_lookup PLive s = Some (mkfile (print_live (c_stream c) (live_playlist c m e)) true);
   (* every duration in the ring is a sane float *)
   inv_dur : forall j : nat, dur_ok (fi_dur (get_slot m j))
 }.
 
-(* order on muxer states within one directory life *)
-Definition mle (m1 m2 : mux) : Prop :=
-  nclosed m1 <= nclosed m2 /\ m_frag m1 <= m_frag m2 /\ exists l, m_hist m2 = (m_hist m1 ++ l)%list.
+(* the media sequence number the live playlist shows (if there is one) *)
+Definition shown (m : mux) : Z := if nclosed m =? m_base m then m_pfrag m else m_frag m.
+
+(* order on muxer states within one directory life (across publications) *)
+Definition mle (m1 m2 : mux) : Prop := nclosed m1 <= nclosed m2 /\ shown m1 <= shown m2 /\ m_base m1 <= m_base m2.
+(* ... and within one publication *)
+Definition same_pub (m1 m2 : mux) : Prop := m_base m1 = m_base m2 /\ exists l, m_hist m2 = (m_hist m1 ++ l)%list.
+
+(* the paths an operation can change *)
+Definition op_paths (o : op) : list path :=
+  match o with
+  | OMkdirAll _ | OReadFile _ _ => []
+  | OCreate q | OWrite q _ | OClose q | OWriteFile q _ | ORemove q => [q]
+  | ORename a b => [a; b]
+  | ORemoveAll _ => []
+  end.
+(* it touches no segment numbered below b (= no file of a previous publication) *)
+Definition touch_ok (b : Z) (o : op) : Prop :=
+  forall p, In p (op_paths o) -> match p with PTs _ id => b <= id | _ => True end.
 
 (* one operation moves the logical muxer state from m to m1 *)
 Definition rstep (c : cfg) (m : mux) (o : op) (m1 : mux) : Prop :=
   match o with
   | ORemoveAll _ => m1 = new_mux c
-  | _ => mle m m1 /\ nclosed m1 = nclosed m + (if is_live_replace o then 1 else 0)
+  | OMkdirAll _ => mle m m1 /\ nclosed m1 = nclosed m /\ m_base m1 = nclosed m1   (* Muxer.Start: a publication begins *)
+  | _ => mle m m1 /\ same_pub m m1 /\ nclosed m1 = nclosed m + (if is_live_replace o then 1 else 0) /\ touch_ok (m_base m) o
   end.
 
 (* an operation sequence every prefix of which is described by some muxer state *)
@@ -61,7 +98,7 @@ Inductive chain (c : cfg) : mux -> fs -> list op -> mux -> Prop :=
 | ch_cons m s o m1 ops m2 :
     rstep c m o m1 -> Inv c m1 (apply s o) -> chain c m1 (apply s o) ops m2 -> chain c m s (o :: ops) m2
 | ch_silent m s m1 ops m2 :
-    mle m m1 -> nclosed m1 = nclosed m -> Inv c m1 s -> chain c m1 s ops m2 -> chain c m s ops m2.
+    mle m m1 -> same_pub m m1 -> nclosed m1 = nclosed m -> Inv c m1 s -> chain c m1 s ops m2 -> chain c m s ops m2.
 
 (* configurations the theorems are about *)
 Definition cfg_ok (c : cfg) : Prop := 1 <= c_num c /\ 0 <= c_thr c /\ 0 <= c_ms c <= 2 ^ 35 /\ stream_ok (c_stream c).
@@ -71,20 +108,23 @@ Inductive phase := Clean | Alive (ready : bool) | Dirty.
 
 Definition in_u64 (z : Z) : Prop := 0 <= z < 18446744073709551616.
 
-Fixpoint wf_evs (c : cfg) (st : phase) (evs : list event) : Prop :=
+(* n: an upper bound of the number of fragments closed since the directory was last empty (a frame closes at most
+   two, Dispose one).  Re-publishing over the directory of the previous publication carries on with its numbering
+   provided that number is below 2^31 (calcNextSeqInM3u8 refuses larger values). *)
+Fixpoint wf_evs (c : cfg) (st : phase) (n : Z) (evs : list event) : Prop :=
   match evs with
   | [] => True
   | e :: t =>
       match st, e with
-      | Clean, EvNew => wf_evs c (Alive false) t
-      | Clean, _ => wf_evs c Clean t
-      | Alive r, EvNew => wf_evs c (Alive r) t
-      | Alive r, EvCleanup => wf_evs c (Alive r) t
-      | Alive r, EvPatPmt b => good_pp b /\ wf_evs c (Alive true) t
-      | Alive r, EvFeed _ _ _ _ _ pk => r = true /\ whole_pkts pk /\ wf_evs c (Alive r) t
-      | Alive r, EvDispose => wf_evs c Dirty t
-      | Dirty, EvCleanup => wf_evs c (if (c_mode c =? 1) || (c_mode c =? 2) then Clean else Dirty) t
-      | Dirty, EvNew => False            (* re-publish over the old directory: see c10_republish_seq_refuted *)
-      | Dirty, _ => wf_evs c Dirty t
+      | Clean, EvNew => wf_evs c (Alive false) n t
+      | Clean, _ => wf_evs c Clean n t
+      | Alive r, EvNew => wf_evs c (Alive r) n t
+      | Alive r, EvCleanup => wf_evs c (Alive r) n t
+      | Alive r, EvPatPmt b => good_pp b /\ wf_evs c (Alive true) n t
+      | Alive r, EvFeed _ _ _ _ _ pk => r = true /\ whole_pkts pk /\ wf_evs c (Alive r) (n + 2) t
+      | Alive r, EvDispose => wf_evs c Dirty (n + 1) t
+      | Dirty, EvCleanup => if (c_mode c =? 1) || (c_mode c =? 2) then wf_evs c Clean 0 t else wf_evs c Dirty n t
+      | Dirty, EvNew => n <= max_int32 /\ wf_evs c (Alive false) n t
+      | Dirty, _ => wf_evs c Dirty n t
       end
   end.
